@@ -216,7 +216,8 @@ def block(rng, kind, big=False, min_items=0, fmix=None, masks=None, fmt=None, hu
             k = rng.choice((8192, 8193, 9000, 20000))
             cells[rng.randrange(nFr)][rng.randrange(nC)] = f32s(rng, 2 * k, "ordinary")
         return {"t": kind, "fmt": 2, "nCams": nC, "nFrames": nFr, "freq": freq, "start": st,
-                "flags": rng.randint(0, 1), "camMap": channels(rng, nC), "cells": cells}
+                "flags": rng.randint(0, 1), "camMap": channels(rng, nC), "cells": cells,
+                **({"camMap": list(range(nC)), "camMap_unset": True} if rng.random() < 0.3 else {})}
     if kind == "calib":
         f = fmt or rng.choice((1, 1, 2))
         cams = []
